@@ -36,19 +36,26 @@ RULE = (
     "complete products of (stride 1..16, derivative 0..3, size, D, argument form, N/C layout, algorithm); the coefficient "
     "tensor is removed from the quantifier by linearity (all unit impulses of the control grid, or linear functions on the "
     "coverage range); distinct = (sub-check, configuration); non-trivial = the implementation returned a tensor with at "
-    "least two distinct non-zero values"
+    "least two distinct non-zero values. Histories: functional API call sequences (request weights -> caller mutates its table "
+    "in place -> request again -> evaluate -> spatial_derivatives; ordered pairs of evaluations with different (stride, "
+    "derivative)) over stride 1..16 x derivative 0..3 x dtype {default,f32,f64} x device form {None,'cpu',torch.device}; "
+    "object histories of depth 3 over {update a/o/b, b = copy(a) | a.link(o) | a.data(B) | a.inverse() | a.inverse(link=True)} "
+    "on FFD/SVFFD x {tensor, Parameter} x {no_grad, grad}, path-exhaustive, invariant (every updated live object's dense "
+    "spline field == exact spline of ITS coefficients) evaluated in every reached state; refinement histories (ffd_hist)"
 )
-EXPLANATION = "exhaustive comparison of the real B-spline operators with the exact rational cubic B-spline basis"
+EXPLANATION = "exhaustive comparison of the real B-spline operators, and of call/object histories over them, with the exact rational cubic B-spline basis"
 ASSUMPTIONS = [
     "derivatives are with respect to the control-point lattice coordinate (spatial_derivatives divides by spacing**order)",
     "image sample x of an evaluation with stride s sits at lattice coordinate 1 + x/s (one control point before the first sample)",
     "third derivatives at knots are taken from the right (piecewise constant); kernels.cubic_bspline1d(derivative=3) is not judged",
     "tolerance 64 * eps(dtype) * (product of per-axis max |weight|) * D; the transposed algorithm uses a float32 kernel, so eps32 there",
+    "an object is judged once update() was called on it after its creation (docs: update() before use); reading is tensor() (SVFFD: buffer v)",
+    "a table returned by the weight functions belongs to the caller: later requests/evaluations must not depend on what the caller does to it",
     "CPU, float32 and float64; strides 1..16 (stride 49, outside the property's range, makes torch.arange return s+1 offsets)",
 ]
 MIN_NONTRIVIAL = {"quick": 9000, "thorough": 30000}
 MIN_OUTCOMES = {"quick": 12000, "thorough": 40000}
-MIN_SUB_TRACES = {"weights": 100, "kernel1d": 40, "coverage": 2000, "eval": 1000, "derivs": 50, "subdivide": 30, "ffd_linear": 100, "ffd_grid": 50, "cpgrid": 20, "ffd_hist": 100}
+MIN_SUB_TRACES = {"weights": 100, "kernel1d": 40, "coverage": 2000, "eval": 1000, "derivs": 50, "subdivide": 30, "ffd_linear": 100, "ffd_grid": 50, "cpgrid": 20, "ffd_hist": 100, "weights_hist": 2000, "eval_order": 400, "ffd_objects": 1500}
 
 EPS = {"f32": 2.0 ** -23, "f64": 2.0 ** -52}
 DT = {"f32": torch.float32, "f64": torch.float64}
@@ -785,6 +792,212 @@ def case_ffd_hist(case, ctx):
                 return
 
 
+# ---------------------------------------------------------------------------
+# call histories on the functional API (hidden module state, aliasing of returned tables)
+DEVICE_FORMS = {"none": None, "str": "cpu", "device": torch.device("cpu")}
+
+
+def case_weights_hist(case, ctx):
+    """request weights -> the caller mutates ITS table in place -> request again -> evaluate: every later result must
+    equal the exact basis, whatever the caller did to earlier return values."""
+    from deepali.core import bspline as B
+
+    s, d, dk, dev, mut, api = case["s"], case["d"], case["dtype"], case["device"], case["mutation"], case["api"]
+    dtype = None if dk == "default" else DT[dk]
+    edk = "f32" if dk == "default" else dk
+    base = f"C14/weights_hist/api={api}/device={dev}/mutation={mut}/d={d}"
+    ctx.acc.state("weights_hist", s, d, dk, dev, mut, api)
+    exp = _exact_table(s, d)
+    tol = C * EPS[edk] * 3.0
+
+    def request(sig):
+        if api == "cubic":
+            return ctx.call(sig, B.cubic_bspline_interpolation_weights, s, d, dtype=dtype, device=DEVICE_FORMS[dev])
+        if api == "seq":
+            r = ctx.call(sig, B.cubic_bspline_interpolation_weights, [s, s], [d, d], dtype=dtype, device=DEVICE_FORMS[dev])
+            return None if r is None else r[1]
+        return ctx.call(sig, B.bspline_interpolation_weights, 3, s, dtype=dtype, device=DEVICE_FORMS[dev])
+
+    k1 = request(base + "/step=1/request")
+    ctx.acc.trace("weights_hist", depth=1)
+    if k1 is None or not _cmp(ctx, base + "/step=1/request", _np(k1), exp, tol, f"stride {s} derivative {d}: first request"):
+        return
+    with torch.no_grad():
+        if mut == "scale":
+            k1.div_(4.0)
+        elif mut == "zero":
+            k1.zero_()
+        elif mut == "add":
+            k1.add_(1.0)
+    k2 = request(base + "/step=3/request-again")
+    ctx.acc.trace("weights_hist", depth=3)
+    if k2 is None:
+        return
+    ctx.observe(("weights_hist", s, d, dk, dev, mut, api), k2)
+    ctx.acc.nontriv("weights_hist", s, d, dk, dev, mut, api)
+    if not _cmp(ctx, base + "/step=3/request-again", _np(k2), exp, tol, f"stride {s} derivative {d}: request after the caller changed the table it got before ({mut})"):
+        return
+    # evaluation after the caller's mutation (the evaluator asks for weights with dtype/device of the data)
+    m = 2 * s + 1
+    n = rb.cp_count_needed(m, s)
+    data = _impulses([n], "N", DT[edk])
+    out = ctx.call(base + "/step=4/evaluate", B.evaluate_cubic_bspline, data, stride=s, shape=(m,), derivative=d)
+    ctx.acc.trace("weights_hist", depth=4)
+    if out is None:
+        return
+    M = rb.operator_1d(n, s, m, d)
+    _cmp(ctx, base + "/step=4/evaluate", _np(out[:, 0]), np.ascontiguousarray(M.T), C * EPS[edk] * max(float(np.abs(M).max()), 1.0), f"evaluate(stride {s}, derivative {d}) after the caller changed a weight table")
+    if case.get("derivs") and d >= 1:
+        from deepali.core.image import spatial_derivatives
+
+        cp = [4, n]
+        data2 = _impulses(cp, "N", DT[edk])
+        key = "x" * d
+        res = ctx.call(base + "/step=5/spatial_derivatives", spatial_derivatives, data2, which=[key], mode="bspline", stride=(s, 1))
+        if res is not None and key in res:
+            mats = [rb.operator_1d(4, 1, 1, 0), rb.operator_1d(n, s, (n - 3) * s, d)]
+            _cmp(ctx, base + "/step=5/spatial_derivatives", _np(res[key][:, 0]), _kron_expected(mats), C * EPS[edk] * 3 * 2, f"spatial_derivatives key {key} stride {s} after the caller changed a weight table")
+
+
+def case_eval_order(case, ctx):
+    """Two evaluations in sequence with different (stride, derivative): hidden module state must not leak."""
+    from deepali.core import bspline as B
+
+    (s1, d1), (s2, d2), dk = case["first"], case["second"], case["dtype"]
+    base = "C14/eval_order"
+    ctx.acc.state("eval_order", s1, d1, s2, d2, dk)
+    for i, (s, d) in enumerate(((s1, d1), (s2, d2), (s1, d1))):
+        m = 2 * s + 1
+        n = rb.cp_count_needed(m, s)
+        data = _impulses([n], "N", DT[dk])
+        for transpose in ((False, True) if d == 0 else (False,)):
+            sig = f"{base}/step={i + 1}/transpose={'T' if transpose else 'F'}/d={d}"
+            out = ctx.call(sig, B.evaluate_cubic_bspline, data, stride=s, shape=(m,), derivative=d, transpose=transpose)
+            ctx.acc.trace("eval_order", depth=i + 1)
+            if out is None:
+                return
+            ctx.observe(("eval_order", s1, d1, s2, d2, dk, i, transpose), out)
+            ctx.acc.nontriv("eval_order", s1, d1, s2, d2, dk, i, transpose)
+            M = rb.operator_1d(n, s, m, d)
+            eps = EPS["f32"] if transpose else EPS[dk]
+            if not _cmp(ctx, sig, _np(out[:, 0]), np.ascontiguousarray(M.T), C * eps * max(float(np.abs(M).max()), 1.0), f"evaluation #{i + 1} (stride {s}, derivative {d}) in the sequence {case['first']}, {case['second']}, {case['first']}"):
+                return
+
+
+# ---------------------------------------------------------------------------
+# object histories: every live, updated transform keeps denoting the spline of ITS coefficients
+OBJ_OPS = ["upd_a", "upd_o", "upd_b", "mk_link", "mk_copy", "mk_data", "mk_inv", "mk_invlink"]
+
+
+def obj_histories(cls_name, depth):
+    ops = OBJ_OPS if cls_name != "FreeFormDeformation" else OBJ_OPS[:6]
+    out = []
+
+    def rec(h, has_b):
+        if len(h) == depth:
+            if any(o.startswith("upd") for o in h):
+                out.append(list(h))
+            return
+        for o in ops:
+            if o == "upd_b" and not has_b:
+                continue
+            if o.startswith("mk") and has_b:
+                continue
+            rec(h + [o], has_b or o.startswith("mk"))
+
+    rec([], False)
+    return out
+
+
+def case_ffd_objects(case, ctx):
+    """Histories (depth <= 3) of update / shallow copy / link / inverse(link) / data(arg) on two transforms a (coefficients A)
+    and o (coefficients B) and one derived object b. An object is judged once update() has been called on it after its
+    creation (the docs require update() before use); from then on its dense spline field must equal the exact spline of
+    ITS coefficients after every later step on ANY object."""
+    import copy as _copy
+
+    import deepali.spatial as S
+    from torch.nn import Parameter
+
+    cls_name, kind, grad, hist, size_x, stride_x = case["cls"], case["kind"], case["grad"], case["hist"], case["size"], case["stride"]
+    D = len(size_x)
+    is_sv = cls_name != "FreeFormDeformation"
+    base = f"C14/ffd_objects/{cls_name}/kind={kind}/grad={'T' if grad else 'F'}"
+    ctx.acc.state("ffd_objects", cls_name, kind, grad, tuple(hist), tuple(size_x), tuple(stride_x))
+    shape_t, stride_t = size_x[::-1], stride_x[::-1]
+    g0 = ctx.call(base + "/grid", _grid, _grid_spec(size_x, "unit"))
+    cp = ctx.call(base + "/grid_size", _real_cp, shape_t, stride_t)
+    if g0 is None or cp is None:
+        return
+    n = D * int(np.prod(cp))
+    coef = {}
+    for name, salt in (("A", 3), ("B", 11)):
+        x = (salt * 2654435761 + 977) & 0xFFFFFFFF
+        vals = []
+        for _ in range(n):
+            x = (1103515245 * x + 12345) & 0x7FFFFFFF
+            vals.append((((x >> 8) % 33) - 16) / 16.0)
+        coef[name] = np.array(vals).reshape((1, D) + tuple(cp))
+    mats = [rb.operator_1d(nn, s, m) for nn, s, m in zip(cp, stride_t, shape_t)]
+    expect = {k: _apply(mats, v[0])[None] for k, v in coef.items()}
+    cls = getattr(S, cls_name)
+
+    def make(key):
+        t = torch.tensor(coef[key], dtype=torch.float32)
+        pin = Parameter(t) if kind == "param" else t
+        kw = {"steps": 2} if is_sv else {}
+        return cls(g0, params=pin, stride=tuple(stride_x), **kw)
+
+    with torch.set_grad_enabled(bool(grad)):
+        a = ctx.call(base + "/construct", make, "A")
+        o = ctx.call(base + "/construct", make, "B")
+        if a is None or o is None:
+            return
+        live = {"a": [a, "A", False], "o": [o, "B", False]}
+        made = ""
+        for i, op in enumerate(hist):
+            tag = op if not op.endswith("_b") else f"{op}[{made}]"
+            sig = f"{base}/after={tag}"
+            ctx.acc.trace("ffd_objects", depth=i + 1)
+            if op.startswith("upd_"):
+                name = op[4:]
+                if ctx.call(sig, live[name][0].update) is None:
+                    return
+                live[name][2] = True
+            else:
+                made = op[3:]
+                if op == "mk_link":
+                    b, key = ctx.call(sig, a.link, o), "B"
+                elif op == "mk_copy":
+                    b, key = ctx.call(sig, _copy.copy, a), "A"
+                elif op == "mk_data":
+                    b, key = ctx.call(sig, a.data, torch.tensor(coef["B"], dtype=torch.float32)), "B"
+                elif op == "mk_inv":
+                    b, key = ctx.call(sig, a.inverse), "A"
+                else:
+                    b, key = ctx.call(sig, lambda: a.inverse(link=True)), "A"
+                if b is None:
+                    return
+                live["b"] = [b, key, False]
+            # invariant in every reached state
+            for name in sorted(live):
+                obj, key, valid = live[name]
+                if not valid:
+                    continue
+                s2 = f"{sig}/object={name}"
+                u = ctx.call(s2 + "/tensor", obj.tensor)
+                if u is None:
+                    return
+                if is_sv:
+                    u = ctx.call(s2 + "/v", lambda: obj.v)
+                    if u is None:
+                        return
+                ctx.observe(("ffd_objects", cls_name, kind, grad, tuple(hist[: i + 1]), name), u)
+                ctx.acc.nontriv("ffd_objects", cls_name, kind, grad, tuple(hist[: i + 1]), name)
+                if not _cmp(ctx, s2 + "/function", _np(u), expect[key], C * EPS["f32"] * 2 * D, f"history {hist[: i + 1]}: dense spline field of object '{name}' vs the exact spline of its coefficients ({key})"):
+                    return
+
+
 def case_cpgrid(case, ctx):
     from deepali.core import bspline as B
 
@@ -834,6 +1047,9 @@ SUBS = {
     "ffd_grid": case_ffd_grid,
     "cpgrid": case_cpgrid,
     "ffd_hist": case_ffd_hist,
+    "weights_hist": case_weights_hist,
+    "eval_order": case_eval_order,
+    "ffd_objects": case_ffd_objects,
 }
 
 
@@ -1010,6 +1226,41 @@ def cases_ffd_hist(tier):
     return out
 
 
+def cases_weights_hist(tier):
+    out = []
+    for s in range(1, 17):
+        for d in range(4):
+            for dk in ("default", "f32", "f64"):
+                for dev in ("none", "str", "device"):
+                    for mut in ("scale", "zero"):
+                        out.append({"sub": "weights_hist", "s": s, "d": d, "dtype": dk, "device": dev, "mutation": mut, "api": "cubic", "derivs": s <= 3})
+            for dk in ("f32", "f64"):
+                out.append({"sub": "weights_hist", "s": s, "d": d, "dtype": dk, "device": "device", "mutation": "add", "api": "seq"})
+        for dk in ("default", "f32", "f64"):
+            for dev in ("none", "device"):
+                out.append({"sub": "weights_hist", "s": s, "d": 0, "dtype": dk, "device": dev, "mutation": "scale", "api": "generic3"})
+    menu = [(s, d) for s in (1, 2, 3, 5) for d in range(4)]
+    for first in menu:
+        for second in menu:
+            if first != second:
+                out.append({"sub": "eval_order", "first": list(first), "second": list(second), "dtype": "f32" if (first[0] + second[1]) % 2 else "f64"})
+    return out
+
+
+def cases_ffd_objects(tier):
+    out = []
+    confs = [([5, 4], [2, 3])] + ([([6], [2]), ([3, 4, 3], [2, 1, 3])] if tier == "thorough" else [])
+    for size, stride in confs:
+        for cls in ("FreeFormDeformation", "StationaryVelocityFreeFormDeformation"):
+            if cls != "FreeFormDeformation" and len(size) == 1:
+                continue
+            for kind in ("tensor", "param"):
+                for grad in (False, True):
+                    for hist in obj_histories(cls, 3):
+                        out.append({"sub": "ffd_objects", "cls": cls, "kind": kind, "grad": grad, "hist": hist, "size": size, "stride": stride})
+    return out
+
+
 def cases_cpgrid(tier):
     out = []
     rot = [[0.8, -0.6], [0.6, 0.8]]
@@ -1038,11 +1289,15 @@ GENERATORS = [
     ("ffd_grid", cases_ffd_grid, 24),
     ("cpgrid", cases_cpgrid, 40),
     ("ffd_hist", cases_ffd_hist, 16),
+    ("weights_hist", cases_weights_hist, 150),
+    ("ffd_objects", cases_ffd_objects, 150),
 ]
 
 
 def bounds(tier):
-    b = {"stride_range": [1, 16], "derivative_range": [0, 3], "coverage_sizes": [1, 64], "D": [1, 2, 3], "subdivision_chain_depth": 2, "ffd_grid_refinements_in_a_row": 2}
+    b = {"stride_range": [1, 16], "derivative_range": [0, 3], "coverage_sizes": [1, 64], "D": [1, 2, 3], "subdivision_chain_depth": 2, "ffd_grid_refinements_in_a_row": 2,
+         "object_history_depth": 3, "object_alphabet": len(OBJ_OPS), "object_histories_FFD": len(obj_histories("FreeFormDeformation", 3)),
+         "object_histories_SVFFD": len(obj_histories("StationaryVelocityFreeFormDeformation", 3)), "functional_history_depth": 5, "device_forms": 3}
     for name, gen, _ in GENERATORS:
         b["cases_" + name] = len(gen(tier))
     return b
@@ -1065,6 +1320,10 @@ def _case_size(case):
         return len(case["steps"])
     if sub == "ffd_hist":
         return case["hist"].count("-") + 1
+    if sub == "ffd_objects":
+        return len(case["hist"])
+    if sub in ("weights_hist", "eval_order"):
+        return 3
     return 1
 
 
